@@ -716,13 +716,19 @@ def do_recover(options):
                     filename = os.path.join(options.repository,
                                             os.path.basename(fn))
                     truth_dict[filename] = {
+                        'start': startpos,
                         'size': endpos - startpos,
                         'sum': sum,
                     }
             totalsz = 0
             for repofile in repofiles:
-                reposz, reposum = concat([repofile], outfp)
                 expected_truth = truth_dict[repofile]
+                if expected_truth['start'] != totalsz:
+                    # the file that holds the bytes in between is missing
+                    raise VerificationFail(
+                        "%s starts at %d, but only %d bytes precede it" % (
+                            repofile, expected_truth['start'], totalsz))
+                reposz, reposum = concat([repofile], outfp)
                 if reposz != expected_truth['size']:
                     raise VerificationFail(
                         "%s is %d bytes, should be %d bytes" % (
